@@ -63,6 +63,8 @@ def generate(seed, tier):
             ops.append({'op': 'first_start', 'keys': rng.randint(2, 5)})
         elif x < 0.993:
             ops.append({'op': 'start_with_read_fault', 'errno': rng.choice([5, 13, 24, 4, 116])})
+        elif x < 0.997:
+            ops.append({'op': 'send_script', 'fault': rng.choice(['interrupt', 'broadcast_error', 'monitor_error']), 'amount': rng.choice([1, 1, 1000, 10 ** 12])})
         else:
             ops.append({'op': 'balance'})
     ops.append({'op': 'save'})
@@ -583,6 +585,78 @@ def execute(script):
                 last_handout = None
                 res.distinct.add('receive_script:%d' % nb)
                 trace.add('receive_script', nb)
+            elif kind == 'send_script':
+                # skepticoin-send as its own process (real main(); chain, networking thread and sleep are stand-ins): the change key is
+                # handed out and saved before the transaction is built. Whatever happens after the transaction has left the process
+                # - an error from a peer's socket half-way through the broadcast, an error while monitoring, ^C - the key that
+                # receives its change must not be handed out again by a later start.
+                if not fs.isfile('wallet.json'):
+                    continue
+                import io
+                import sys
+                import contextlib
+                import types
+                import skepticoin.scripts.send as send_mod
+                save_wallet(wallet)
+                fault = op.get('fault', 'interrupt')
+                sent = []
+
+                class _NM:
+                    def broadcast_transaction(self, tx):
+                        sent.append(tx)
+                        if fault == 'broadcast_error':
+                            raise BrokenPipeError(32, 'Broken pipe')        # the second peer's socket fails; the first got it
+
+                class _Thread:
+                    def __init__(self):
+                        self.local_peer = types.SimpleNamespace(network_manager=_NM(), chain_manager=types.SimpleNamespace(coinstate=sim.cs))
+
+                    def stop(self):
+                        pass
+
+                    def join(self):
+                        pass
+
+                def _sleep(n):
+                    if fault == 'monitor_error':
+                        raise OSError(5, 'Input/output error')
+                    raise KeyboardInterrupt()
+                names = ['check_chain_dir', 'read_chain_from_disk', 'start_networking_peer_in_background', 'wait_for_fresh_chain', 'sleep']
+                saved_names = {n_: getattr(send_mod, n_) for n_ in names}
+                send_mod.check_chain_dir = lambda: None
+                send_mod.read_chain_from_disk = lambda: sim.cs
+                send_mod.start_networking_peer_in_background = lambda args, cs: _Thread()
+                send_mod.wait_for_fresh_chain = lambda *a, **k: None
+                send_mod.sleep = _sleep
+                argv = sys.argv
+                sys.argv = ['skepticoin-send', str(op.get('amount', 1)), 'sashimi', 'SKE' + human(W.key(5).pub) + 'PTI']
+                outcome = 'completed'
+                try:
+                    with contextlib.redirect_stdout(io.StringIO()):
+                        send_mod.main()
+                except (Exception, SystemExit) as e:
+                    outcome = type(e).__name__
+                finally:
+                    sys.argv = argv
+                    for n_, v_ in saved_names.items():
+                        setattr(send_mod, n_, v_)
+                res.bump('send_script_runs')
+                res.bump('send_script:%s:%s' % (fault, 'sent' if sent else 'nothing_sent'))
+                wallet = open_or_init_wallet()
+                if sent:
+                    res.bump('probe:send_script_fault_after_the_transaction_left')
+                    change_keys = [o.public_key.public_key for o in sent[0].outputs if o.public_key.public_key in all_pubs]
+                    back = [k_ for k_ in change_keys if k_ in wallet.unused_public_keys]
+                    if back:
+                        res.violate(PROP, 'C15/key-handed-out-twice', 'the send script (%s, ended with %s) broadcast a transaction whose change goes to a '
+                                    'wallet key; after the script that key is among the unused keys of wallet.json again: the next hand-out may '
+                                    'return it' % (fault, outcome))
+                        break
+                final_snap = fs.snapshot()
+                outstanding = {k for k in all_pubs if human(k) in _parse(final_snap['wallet.json'])[2]}
+                reused = {}
+                last_handout = None
+                trace.add('send_script', fault, len(sent))
             elif kind == 'start_with_read_fault':
                 # a start of a script on which reading the existing wallet fails once (a transient I/O error): whatever that
                 # start does, the wallet on disk stays what it was, and the next start loads it
